@@ -485,10 +485,20 @@ class SSHConfig:
             except KeyError:
                 pass
             else:
+                # Values inherited from a previous config object
+                # have already been expanded there
+
+                last_value = self._last_options.get(option)
+
                 if isinstance(value, list):
-                    value = [self._expand_val(item) for item in value]
+                    skip = len(last_value) \
+                        if isinstance(last_value, list) else 0
+
+                    value = value[:skip] + [self._expand_val(item)
+                                            for item in value[skip:]]
                 elif isinstance(value, str):
-                    value = self._expand_val(value)
+                    if option not in self._last_options:
+                        value = self._expand_val(value)
 
                 self._options[option] = value
 
